@@ -24,6 +24,12 @@ func (e *Env) Inherit(parent *Env) *Env {
 	return e
 }
 
+// Extend 与 Inherit 一样把 parent 作为外层环境, 但不修改 e 本身, 同一个环境可以重复使用
+func (e *Env) Extend(parent *Env) *Env {
+	util.Assert(e.parent == nil, "env.parent != nil")
+	return &Env{parent, e.ctx, e.fnTbl, e.Dgb}
+}
+
 func (e *Env) Derive() *Env {
 	return &Env{e, map[string]*Val{}, map[string]interface{}{}, e.Dgb}
 }
